@@ -187,7 +187,13 @@ def oracle(case, tr: C.Trace) -> tuple[list[Violation], dict]:
                     # mark_cancelled of an already cancelled node (finalize skipped, done by the safety net one tick later)
                     reinvoked = any(o2 is not it and o2.name == it.name and o2.args == it.args and o2.first_pos < it.first_pos
                                     for o2 in insts.values())
-                    viol(("cancelled-instance-restarted:reinvoked-line" if reinvoked else "cancelled-instance-restarted") if deferred
+                    # the cancel was accepted while the request had not started at all (left pending by an aborted command loop):
+                    # cancel_instruction finds no command for it and only flags the line; the request starts anyway, its later
+                    # cancellation by the other pending request fails in mark_cancelled (node already cancelled), the instance is
+                    # adopted by name, finalized and re-created by its own request
+                    before_start = any(ct <= it.init[0][1] for ct in cancelled_by_request.get(it.id, []))
+                    viol("cancelled-instance-restarted:cancelled-before-start" if before_start else
+                         ("cancelled-instance-restarted:reinvoked-line" if reinvoked else "cancelled-instance-restarted") if deferred
                          else "cancelled-instance-restarted:stale-request-of-same-name",
                          "%s: a cancel request for this instance was accepted before tick %d; it "
                          "was finalized in tick %d, then initialised again in tick %d and executed from iteration 0 (%d exec "
